@@ -731,5 +731,23 @@ func registerFEPrelude() {
 		}
 		return x.ts.True
 	}
+	// vPRNGKey(prng, key): declare that this PRNG object is keyed with `key` (objects with equal keys produce equal streams)
+	P["vPRNGKey"] = func(x *Exec, fn *ssa.Function, a []Value) Value {
+		if x.prngKeys == nil {
+			x.prngKeys = map[*Object]string{}
+		}
+		var p Ptr
+		switch v := a[0].(type) {
+		case Iface:
+			p, _ = v.V.(Ptr)
+		case Ptr:
+			p = v
+		}
+		if p.Obj == nil {
+			panic(x.errf("vPRNGKey: not a PRNG object"))
+		}
+		x.prngKeys[p.Obj] = a[1].(string)
+		return nil
+	}
 	P["vIsAlgebraic"] = func(x *Exec, fn *ssa.Function, a []Value) Value { return x.ts.True }
 }
